@@ -7,9 +7,9 @@ CHECKS['C01'] = (_SYMX + '; probability masses extracted from branch conditions,
 CHECKS['C04'] = (_SYMX + '; well-formedness assertions proved on every path',
                  'every feasible path of every simulator configuration in the bound satisfies the well-formedness obligations for all values of rates, weights, tmin, tmax and draws',
                  'floats as reals; precondition tmin < tmax; graphs <= 3 (4) nodes; event bounds for SIS-type runs', 'DESIGN.md 6/C04')
-CHECKS['C16'] = (_SYMX + '; inductive step over an arbitrary invariant-satisfying pre-state',
-                 'one-step induction: from any candidate set satisfying the representation invariant, any single operation re-establishes it and choose_random accepts candidate i with probability exactly w_i/max_weight in [0,1] (z3, all weights symbolic)',
-                 'floats as reals; <= 3 (4) items in the symbolic pre-state; rejection-sampling lemma L3', 'DESIGN.md 6/C16')
+CHECKS['C16'] = (_SYMX + '; inductive step over an arbitrary invariant-satisfying pre-state; scripted long rejection runs (one path, draws steered by assumptions); IEEE binary64 via z3 FloatingPoint (bit-precise) and the standard rounding-error model over the reals',
+                 'one-step induction: from any candidate set satisfying the representation invariant, any single operation (insert, replace, increment, remove, random_removal, recompute) re-establishes it and choose_random accepts candidate i with probability exactly w_i/max_weight in [0,1] (z3, all weights symbolic); after 150 (400) forced rejections the result is still an accepted positive-weight candidate; on doubles the total of an emptied set is exactly 0 and the running total stays within 2n*2^-53*(sum added) of the exact sum; unweighted variant uniform',
+                 'reals for the inductive part; doubles: histories of <= 6 operations, weights in [2^-10, 2^10]; <= 3 (4) items in the symbolic pre-state; rejection-sampling lemma L3', 'DESIGN.md 6/C16, 2.4')
 CHECKS['C05'] = (_SYMX + '; initial-state assertions, container-style / positional / wrapper equivalence under replayed draws',
                  'every simulator and wrapper, on every configuration of the bound and every path, starts from exactly the requested state; rho requests int(round(N*rho)) nodes (z3 over symbolic rho); conflicting arguments raise EoNError',
                  'floats as reals; graphs <= 3 (4) nodes; strictly positive delays/durations (zero values are tie cases covered by C11)', 'DESIGN.md 6/C05')
@@ -47,7 +47,7 @@ _ODEX = 'symbolic evaluation of the real ODE code on z3 terms (odex) with a flow
 ENGINE['C06'] = 'odex'
 CHECKS['C06'] = (_ODEX + '; row-0 / linspace identities, conservation via identity-or-vanishing-Lie-derivative, monotonicity as sign conditions, all decided by z3',
                  'for every ODE entry point reachable through the *_from_graph / node-level wrappers on the graphs of the bound, with symbolic tau, gamma, rho, tmin, tmax: times, row 0 (incl. documented full-data series), conservation at an arbitrary flow state and SIR monotonicity on the stated region hold for all parameter values; all consistent initial conditions accepted',
-                 'floats as reals; L5/L6 (integrator = exact flow) trusted; graphs <= 5 nodes, degree support K <= 3 (4); [0,N] range not claimed', 'DESIGN.md 6/C06')
+                 'floats as reals; L5/L6 (integrator = exact flow, started at tmin: checked) trusted; graphs <= 5 nodes incl. an isolated node, degree support K <= 3 (4); [0,N] range not claimed; 8 open findings (no susceptible stub at tmin) listed in known_findings.json', 'DESIGN.md 6/C06, 7')
 ENGINE['C20'] = 'symx+odex'
 CHECKS['C20'] = (_SYMX + ' for subsample/get_time_shift on lists with symbolic entries; odex identities and symbolic differentiation for the generating-function helpers and estimate_R0',
                  'subsample / get_time_shift equal their step-function references for all real-valued entries of lists up to the length bound; psi(1), psi\'(1), psi\'\'(1), the derivative chain and R0 = T<k^2-k>/<k> hold for all symbolic P_k, x, tau, gamma; get_Pk / get_Pnk normalisation on every graph with <= 4 nodes',
@@ -59,7 +59,7 @@ CHECKS['C19'] = (_SYMX + ' / odex; argument snapshots compared on every path, se
 ENGINE['C14'] = 'symx+odex'
 CHECKS['C14'] = (_ODEX + ' on G and a relabelled, re-ordered copy: identity of the integrator inputs (degree-based) / equivariance of the vector field for all states (node-level), decided by z3; ' + 'symx runs of the deterministic-rule simulators with tables transported by the relabelling',
                  'for every entry point and relabelling in the bound: degree-based wrappers hand identical (X0, right-hand side) to the integrator; node-level models satisfy f_G\'(Px) = P f_G(x) for all x and P X0 = X0\'; deterministic-rule simulators give identical per-node histories up to the relabelling on every path',
-                 'floats as reals; graphs P3, paw, S3 (irr5); 3 relabelings (all for n=3 in thorough); L5', 'DESIGN.md 6/C14')
+                 'floats as reals; graphs P3, paw, S3 (irr5); 3 relabelings (all for n=3 in thorough); explicit nodelist in another order than G.nodes() for the node-level models; L5', 'DESIGN.md 6/C14')
 ENGINE['C07'] = 'odex'
 CHECKS['C07'] = ('Taylor-mode execution of the real public entry points on exact power series (Picard iteration through the real right-hand sides) with z3 deciding coefficient equality for all tau, gamma; vector-field conjugacy with all quantities symbolic decided by z3 after clearing denominators',
                  'all members of each equivalence group return S, I, R series that coincide to order m for all tau, gamma on the graphs / degree sequences of the bound (bounded statement); EBCM -> compact pairwise: D phi . f = g o phi for all states and parameters with degree support K <= 3 (4), hence equality for all t',
